@@ -45,6 +45,7 @@ var (
 	ErrInvalidBlockTimestamp               = errors.New("invalid block timestamp")
 	ErrInvalidWarpSignature                = errors.New("invalid warp signature")
 	ErrInvalidSignatureType                = errors.New("invalid signature type")
+	ErrInvalidChunkCertExpiry              = errors.New("invalid chunk certificate expiry")
 )
 
 type ChainState interface {
@@ -264,10 +265,12 @@ func (n *Node[T]) BuildBlock(ctx context.Context, parent Block, timestamp int64)
 		return Block{}, err
 	}
 
+	validityWindowDuration := n.ruleFactory.GetRules(timestamp).GetValidityWindow()
 	availableChunkCerts := make([]*ChunkCertificate, 0)
 	for i, chunkCert := range gatheredChunkCerts {
-		// avoid building blocks with duplicate or expired chunk certs
-		if chunkCert.Expiry < timestamp || duplicates.Contains(i) {
+		// avoid building blocks with duplicate or expired chunk certs or chunk certs that
+		// are too far in the future to be included yet
+		if chunkCert.Expiry < timestamp || chunkCert.Expiry > timestamp+validityWindowDuration || duplicates.Contains(i) {
 			continue
 		}
 		availableChunkCerts = append(availableChunkCerts, chunkCert)
@@ -334,6 +337,16 @@ func (n *Node[T]) Verify(ctx context.Context, parent Block, block Block) error {
 			n.chainState,
 		); err != nil {
 			return fmt.Errorf("%w %s: %w", ErrInvalidWarpSignature, chunkCert.ChunkID, err)
+		}
+	}
+
+	// A chunk certificate may only be included while it is not expired and
+	// within the validity window of the block. Otherwise, it could be included
+	// again once it has been evicted from the validity window.
+	validityWindowDuration := n.ruleFactory.GetRules(block.Timestamp).GetValidityWindow()
+	for _, chunkCert := range block.ChunkCerts {
+		if err := validitywindow.VerifyTimestamp(chunkCert.Expiry, block.Timestamp, validityWindowTimestampDivisor, validityWindowDuration); err != nil {
+			return fmt.Errorf("%w %s: %w", ErrInvalidChunkCertExpiry, chunkCert.ChunkID, err)
 		}
 	}
 
